@@ -227,3 +227,40 @@ class Model:
             if len(oks) == 1 and oks[0][0] == ("pvar", "Token::Eof") and all(is_err(sm) for p, sm in tail[2] if p != ("pvar", "Token::Eof")):
                 return True, "match current_token { Eof => Ok, _ => Err }"
         return False, "no Eof gate: parse() returns %s" % show_tail(tail)[:200]
+
+
+    # ---- shared premises ------------------------------------------------------
+    def entry_chain(self):
+        """eval_x = strip whitespace -> Parser::new(.., Some(placeholder))? -> parse()? -> eval(ast)? -> Ok  (nothing else)"""
+        fe = self.F.by_key.get("%s::%s" % (self.ev, self.ev))
+        if fe is None:
+            return False, "entry point not found"
+        te = self.tb.fn_term(fe)
+        want = "(seq (let ?s (call Iterator::collect::<String> (call str::split_whitespace (param ?e)))) (let ?p (try (call P.new (var ?s) (Some (param ?ph))))) (let ?a (try (call P.parse (var ?p)))) ...)"
+        e = M(want, te)
+        if e is None:
+            return False, T.show(te)[:300]
+        rest = te[4:]
+        ev_call = ("try", ("call", "Ast.eval", ("var", e["?a"])))
+        ok = rest == (("Ok", ev_call),) or (len(rest) == 2 and M(("let", "?r", ev_call), rest[0]) is not None and rest[1] == ("Ok", ("var", rest[0][1])))
+        return ok, ("strip -> new? -> parse? -> eval? -> Ok" if ok else T.show(te)[:300])
+
+    def list_shape(self):
+        """find_item_list: name, '(', [ e { ',' e } ], ')' with exactly one push per argument into a local vector"""
+        fil = self.tb.fn("::parser::Parser::find_item_list")
+        if fil is None:
+            return None, "no find_item_list"
+        t = self.tb.fn_term(fil)
+        EQ = "<Token as cmp::PartialEq>::eq"
+        e = M(("seq", ("try", ("call", "P.get_next_token", ("param", "self"))), ("try", ("call", "P.check_paren", ("param", "self"), ("param", "?st"))), ("let", "?args", ("call", "Vec::new")),
+               ("loop", "?body"), ("Ok", ("var", "?args"))), t)
+        if e is None:
+            return False, T.show(t)[:400]
+        args = ("var", e["?args"])
+        ok = M(("seq",
+                ("if", ("op", "and", "bool", ("call", "Vec::is_empty", args), ("call", EQ, ("param", "?en"), CUR)), ("seq", ("try", ("call", "P.get_next_token", ("param", "self"))), ("break",)), ("unit",)),
+                ("let", "?a", ("try", ("call", "P.generate_ast", ("param", "self"), ("param", "?pr")))),
+                ("call", "Vec::push", args, ("var", "?a")),
+                ("if", ("call", EQ, ("ctor", "Token::Comma"), CUR), ("try", ("call", "P.get_next_token", ("param", "self"))),
+                 ("if", ("call", EQ, ("param", "?en"), CUR), ("seq", ("try", ("call", "P.get_next_token", ("param", "self"))), ("break",)), ("return", ("Err",))))), e["?body"]) is not None
+        return ok, ("" if ok else T.show(t)[:400])
